@@ -121,6 +121,16 @@ def families(tier):
                  'x_pause_x': [('disp', 'B', 'X', 'ff'), ('pause',), ('disp', 'A', 'X', 'ff')]}[a_shape]
         main = [('disp', 'A', 'P', 'ff'), ('pause',), ('disp', 'A', 'P', 'ff')]
         add('c01.nested_concurrent', f'{a_shape}-c{c_bus}-g{g_bus}-{aw}', scn(buses, hs, main, [actor]), aw=aw)
+    # --- family 6: parallel_handlers bus: one handler awaits a child (two handlers, serial other bus / same bus) while its sibling returns, raises or dispatches
+    for sib, cbus, csh in itertools.product(['raise', 'pause_raise', 'ret', 'pause', 'c2_ff', 'c2_aw'], 'AB', ['pause_ret', 'ret_pause']):
+        c1, c2 = ([('pause',), ('ret', 1)], [('ret', 2)]) if csh == 'pause_ret' else ([('ret', 1)], [('pause',), ('ret', 2)])
+        hB = {'raise': [('raise', 'ValueError')], 'pause_raise': [('pause',), ('raise', 'Custom')], 'ret': [('ret', 0)], 'pause': [('pause',)],
+              'c2_ff': [('pause',), ('disp', cbus, 'G', 'ff')], 'c2_aw': [('pause',), ('disp', cbus, 'G', 'await')]}[sib]
+        hs = [dict(bus='A', pat='P', name='hA', prog=[('disp', cbus, 'C', 'await'), ('ret', 'a')]), dict(bus='A', pat='P', name='hB', prog=hB),
+              dict(bus=cbus, pat='C', name='hc1', prog=c1), dict(bus=cbus, pat='C', name='hc2', prog=c2), dict(bus=cbus, pat='G', name='hg', prog=[('pause',)]),
+              dict(bus='A', pat='X', name='hx', prog=[('ret', 0)])]
+        s_ = scn({'A': dict(parallel=True), 'B': {}}, hs, [('disp', 'A', 'P', 'ff'), ('disp', 'A', 'X', 'ff')])
+        add('c01.parallel_siblings', f'{sib}-c{cbus}-{csh}', s_, sib=sib)
     # --- family 5: a dispatch that was rejected (backlog limit / full queue) is offered again later and then accepted ---------------
     for K, hist, src in itertools.product((51, 60), (50, 5), ('main', 'handler')):
         hs = [dict(bus='A', pat='X', name='hx', prog=[('ret', 1)], kind='sync'), dict(bus='A', pat='*', name='hw', prog=[('ret', 9)], kind='sync')]
